@@ -118,6 +118,24 @@ def run(ctx):
                     # the last newline chunk follows a namespace brace: do_blank_lines() does not force it to 1
                     opts.update({"nl_before_namespace": 2, "nl_end_of_file": rng.choice(["force", "force", "add"]), "nl_end_of_file_min": rng.choice([1, 2])})
                 jobs.append(pipeline.Job("gen%d" % i, sc.cfg(None, opts), p, lang, {"opts": opts, "kind": "gen", "text": txt}))
+        # ---- the tab-policy matrix on one fixed program that holds every kind of chunk that can be first on a line at several
+        #      nesting depths: code, a `<<` continuation (placed by align_left_shift), a continued call argument, a continued
+        #      condition, a trailing-operator continuation, a comment, a label, a preprocessor line
+        MTXT = ("int g0;\nvoid sh(int lv, int *q)\n{\n  if (lv) {\n    out << \"first part\" << lv\n      << \" and that is all\";\n"
+                "    if (lv > 1) {\n      stream << \"x\"\n       << \"y\" << lv\n    << \"z\";\n      call_some(lv, q,\n  lv + 1,\n          q);\n"
+                "      if (lv > 2 &&\n   q) {\n        g0 = lv +\n   2;\n        /* c */\n        // d\n#ifdef A\n        g0++;\n#endif\n      }\n"
+                "    }\n  }\nend:\n  return;\n}\n")
+        mp = sc.write(MTXT, ".cpp")
+        for iwt in (0, 1, 2):
+            for awt in ("true", "false"):
+                for ic, ts in ((4, 8), (3, 8), (2, 4), (8, 8), (4, 4), (8, 4)):
+                    opts = {"indent_with_tabs": iwt, "align_with_tabs": awt, "indent_columns": ic, "output_tab_size": ts, "input_tab_size": 8,
+                            "align_keep_tabs": "false", "pp_indent_with_tabs": -1, "pp_indent": "ignore", "align_var_def_span": 0,
+                            "align_assign_span": 0, "align_right_cmt_span": 0, "indent_brace": 0, "indent_single_newlines": "false",
+                            "disable_processing_nl_cont": "false", "nl_before_namespace": 0, "pp_ignore_define_body": "false",
+                            "nl_end_of_file": "ignore", "nl_end_of_file_min": 0, "nl_start_of_file": "ignore", "nl_start_of_file_min": 0}
+                    jobs.append(pipeline.Job("tabmatrix:%d:%s:%d:%d" % (iwt, awt, ic, ts), sc.cfg(None, opts), mp, "CPP",
+                                             {"opts": opts, "kind": "gen", "text": MTXT}))
         pairs = [p for p in unc.test_pairs() if os.path.getsize(p[2]) < 30000]
         rng.shuffle(pairs)
         for name, cfg, inp, lang in pairs[:(600 if thorough else 60)]:
